@@ -219,3 +219,58 @@ pub fn kernel_fib_case(cx: &mut Ctx, n: u64, case: &Value) {
         }
     }
 }
+
+/// Gen_Orient cases: coordinates given as limbs (base 2^13, least significant first) and a binary exponent; every value has
+/// at most 53 significant bits, so the sum below is exact.  The exact orientation comes from BigInt.tla.
+pub fn kernel_big_case(cx: &mut Ctx, n: u64, case: &Value) {
+    if !cx.wants("C03") {
+        return;
+    }
+    let num = |k: &str, e: &str| -> f64 {
+        let limbs: Vec<f64> = case[k].as_array().unwrap().iter().map(|v| v.as_f64().unwrap()).collect();
+        let mut v = 0.0f64;
+        for l in limbs.iter().rev() {
+            v = v * 8192.0 + l;          // exact: every prefix has fewer significant bits than the whole
+        }
+        v * 2f64.powi(case[e].as_i64().unwrap() as i32)
+    };
+    let (a0, b0, c0) = ((num("ax", "aexp"), num("ay", "aexp")), (num("bx", "bexp"), num("by", "bexp")), (num("cx", "cexp"), num("cy", "cexp")));
+    let so = case["orient"].as_i64().unwrap();
+    if n % 499 == 0 {
+        cx.sample(case.clone());
+    }
+    cx.count("kernel_big_cases", 1);
+    cx.count(&format!("kernel_big_orient_{so}"), 1);
+    let d4: [(f64, f64, f64, f64, i64); 4] = [(1.0, 0.0, 0.0, 1.0, 1), (0.0, -1.0, 1.0, 0.0, 1), (-1.0, 0.0, 0.0, 1.0, -1), (0.0, 1.0, 1.0, 0.0, -1)];
+    for (si, scale) in [1.0f64, 2f64.powi(40), 2f64.powi(-300)].iter().enumerate() {
+        let (m0, m1, m2, m3, dsign) = d4[(n as usize + si) % 4];
+        let f = |p: (f64, f64)| Coord { x: (m0 * p.0 + m1 * p.1) * scale, y: (m2 * p.0 + m3 * p.1) * scale };
+        let (a, b, c) = (f(a0), f(b0), f(c0));
+        let want = so * dsign;
+        let what = format!("scale 2^{} symmetry {}", scale.log2(), (n as usize + si) % 4);
+        for (args, got) in [("(a,b,c)", sign_of(RobustKernel::orient2d(a, b, c))), ("(b,c,a)", sign_of(RobustKernel::orient2d(b, c, a))), ("(c,b,a)", -sign_of(RobustKernel::orient2d(c, b, a)))] {
+            if got == want { cx.ok("big_orient2d"); } else { cx.bad("C03", "big_orient2d", case, json!({"what": format!("{what} {args}"), "got": got, "want": want})); }
+        }
+        // triangle a, b, apex with the apex a quarter turn of b about the origin (a is within 64 units of the origin, b ~ 2^29 away):
+        // c is next to the middle of the edge a b, so it is inside iff strictly left of a b in the original frame
+        let apex = f((-b0.1, b0.0));
+        let want_pos = match so { 1 => "I", 0 => "B", _ => "E" };
+        for (rw, r) in [("ccw", LineString::new(vec![a, b, apex, a])), ("cw", LineString::new(vec![a, apex, b, a])), ("rotated", LineString::new(vec![apex, a, b, apex]))] {
+            let got = pos_char(coord_pos_relative_to_ring(c, &r));
+            if got == want_pos { cx.ok("big_point_in_ring"); } else { cx.bad("C03", "big_point_in_ring", case, json!({"what": format!("{what} ring {rw}"), "got": got, "want": want_pos})); }
+        }
+        let got = pos_char(Polygon::new(LineString::new(vec![a, b, apex, a]), vec![]).coordinate_position(&c));
+        if got == want_pos { cx.ok("big_point_in_polygon"); } else { cx.bad("C03", "big_point_in_polygon", case, json!({"what": what, "got": got, "want": want_pos})); }
+        let got = pos_char(Triangle::new(a, b, apex).coordinate_position(&c));
+        if got == want_pos { cx.ok("big_point_in_triangle"); } else { cx.bad("C03", "big_point_in_triangle", case, json!({"what": what, "got": got, "want": want_pos})); }
+        let got = Line::new(a, b).intersects(&c);
+        if got == (so == 0) { cx.ok("big_point_on_segment"); } else { cx.bad("C03", "big_point_on_segment", case, json!({"what": what, "got": got, "want": so == 0})); }
+        let wo = LineString::new(vec![a, b, c, a]).winding_order();
+        let want_wo = match want { 1 => Some(WindingOrder::CounterClockwise), -1 => Some(WindingOrder::Clockwise), _ => None };
+        if wo == want_wo { cx.ok("big_winding_order"); } else { cx.bad("C03", "big_winding_order", case, json!({"what": what, "got": format!("{wo:?}"), "want": format!("{want_wo:?}")})); }
+        // a segment from c to a point well inside the triangle meets the edge a b iff c is not strictly inside
+        let inner = f((-b0.1 / 4.0, b0.0 / 4.0));
+        let meets = Line::new(a, b).intersects(&Line::new(c, inner));
+        if meets == (so != 1) { cx.ok("big_segment_intersects"); } else { cx.bad("C03", "big_segment_intersects", case, json!({"what": what, "got": meets, "want": so != 1})); }
+    }
+}
